@@ -2,7 +2,7 @@
 import warnings
 import numpy as np
 from core import Result
-import proto, gen, kernels
+import proto, gen, kernels, implutil
 
 THEOREMS = ['C02_crossing_char_rise', 'C02_crossing_char_decay', 'C02_crossings_sorted', 'C02_alternation', 'C02_halfwave_pos', 'C02_halfwave_neg',
             'C02_first_max', 'C02_first_min', 'C02_exact', 'C02_boundary', 'C02_alternating', 'C02_first', 'C02_full']
@@ -23,7 +23,7 @@ def _fmt(pk, tr):
 
 def _impl_signal(c):
     from bycycle.cyclepoints import find_extrema
-    sig = proto.hex2arr(c['sig'])
+    sig = implutil.present(proto.hex2arr(c['sig']), c.get('pres'))
     try:
         with warnings.catch_warnings():
             warnings.simplefilter('ignore')
@@ -34,14 +34,36 @@ def _impl_signal(c):
             pk2, tr2 = find_extrema(sig, c['fs'], tuple(c['f_range']), boundary=c['boundary'], first_extrema=c['first'], filter_kwargs=fk, pad=c['pad'])
             if repr(fk) != snap or not (np.array_equal(pk, pk2) and np.array_equal(tr, tr2)):
                 return ['err', 'SecondCallDiffers']
+            if c['first'] == 'peak' and len(pk) >= 1 and len(tr) >= 1:
+                # the feature-level route: compute_cyclepoints hands the same options on and builds its table from these arrays
+                from bycycle.features import compute_cyclepoints
+                try:
+                    df = compute_cyclepoints(sig, c['fs'], tuple(c['f_range']), boundary=c['boundary'], filter_kwargs=fk, pad=c['pad'])
+                    if not (np.array_equal(df['sample_peak'].values, pk[1:]) and np.array_equal(df['sample_last_trough'].values, tr[:-1])
+                            and np.array_equal(df['sample_next_trough'].values, tr[1:])):
+                        return ['err', 'CyclepointsRouteDiffers']
+                except ValueError as e:
+                    if 'same length' not in str(e) and 'All arrays' not in str(e): raise
         return _fmt(pk, tr)
     except Exception as e:
         return ['err', type(e).__name__]
 
+INT_MAP = {'uint8': {-2: 0, -1: 1, 0: 100, 1: 254, 2: 255}, 'int8': {-2: -128, -1: -127, 0: 0, 1: 126, 2: 127}, 'int16': {-2: -32768, -1: -1, 0: 0, 1: 1, 2: 32767}}
+
+def _pattern_sig(c):
+    """(array handed to find_extrema, its values as floats): the small-integer pattern as float64, or mapped monotonically onto the
+    limits of a fixed-width integer type (arg-extrema only depend on the order)"""
+    if c.get('dt'):
+        m = INT_MAP[c['dt']]
+        a = np.array([m[int(v)] for v in c['sig']], dtype=c['dt'])
+        return a, a.astype(float)
+    a = np.array(c['sig'], dtype=float)
+    return a, a
+
 def _impl_pattern(c):
     """drive find_extrema with a prescribed filtered sign pattern by substituting the filter (harness process only)"""
     import bycycle.cyclepoints.extrema as ex
-    sig = np.array(c['sig'], dtype=float)
+    sig = _pattern_sig(c)[0]
     b = np.array(proto.dec_bits(c['b']))
     orig_f, orig_l = ex.filter_signal, ex.compute_filter_length
     z = np.array(proto.dec_bits(c['z'])) if c.get('z') else np.zeros(len(b), bool)
@@ -74,7 +96,7 @@ def generate(ctx):
         first = rng.choice(['peak', 'trough', 'None', 'None', 'bogus'], p=[0.35, 0.3, 0.15, 0.15, 0.05])
         first = None if first == 'None' else str(first)
         cases.append(dict(kind='signal', sig=proto.arr2hex(s['sig']), fs=s['fs'], f_range=list(s['f_range']), fk=fk,
-                          boundary=int(rng.choice([0, 0, 1, 3, 10, 50])), first=first, pad=bool(rng.random() < 0.75), family=s['family']))
+                          boundary=int(rng.choice([0, 0, 1, 3, 10, 50])), first=first, pad=bool(rng.random() < 0.75), family=s['family'], pres=(str(rng.choice(['readonly', 'strided'])) if rng.random() < 0.3 else 'array')))      # find_extrema documents a 1d ARRAY (lists / Series are only accepted with pad=True)
     for i in range(ctx.scale(1500, 15000)):
         n = int(rng.integers(2, 40))
         padlen = int(rng.choice([0, 0, 1, 3]))
@@ -87,6 +109,8 @@ def generate(ctx):
         z = proto.enc_bits((~b) & (rng.random(m) < rng.choice([0.0, 0.5, 1.0])))
         cases.append(dict(kind='pattern', sig=sig, b=proto.enc_bits(b), z=z, padlen=padlen, boundary=int(rng.choice([0, 0, 1, 2, 5])),
                           first=str(rng.choice(['peak', 'trough', 'None']))))
+        if rng.random() < 0.2:       # the same pattern as a fixed-width integer array reaching the limits of its type
+            cases[-1]['dt'] = str(rng.choice(list(INT_MAP)))
     return cases
 
 def evaluate(ctx, cases):
@@ -101,7 +125,7 @@ def evaluate(ctx, cases):
             first = 'None' if c['first'] is None else c['first']
             impls.append(_impl_signal(c))
         else:
-            sig = np.array(c['sig'], dtype=float); pad = c['padlen']; b = proto.dec_bits(c['b']); first = c['first']
+            sig = _pattern_sig(c)[1]; pad = c['padlen']; b = proto.dec_bits(c['b']); first = c['first']
             impls.append(_impl_pattern(dict(c, first=None if first == 'None' else first)))
         skip.append(False)
         args = '%s %d %s %d %s' % (proto.enc_list(sig), pad, proto.enc_bits(b), c['boundary'], first)
@@ -117,6 +141,6 @@ def evaluate(ctx, cases):
         judge_ok = True if spec == 'no-crossings' else impl == spec
         nt = impl[0] == 'err' or len(impl[1][0]) + len(impl[1][1]) >= 2
         ctx.hist('outcome', (impl[1] if impl[0] == 'err' else 'ok') + ('' if spec != 'no-crossings' else ':no-crossings'))
-        key = (c['kind'], hash(tuple(c['sig'])), c.get('b'), c.get('padlen'), c['boundary'], c['first'], repr(c.get('fk')), c.get('pad'), c.get('fs'))
+        key = (c['kind'], hash(tuple(c['sig'])), c.get('b'), c.get('padlen'), c['boundary'], c['first'], repr(c.get('fk')), c.get('pad'), c.get('fs'), c.get('dt'))
         out.append(Result(c, judge_ok=judge_ok, corr_ok=corr_ok, sig=hash(key), nontrivial=nt, info=dict(impl=impl, model=model, spec=spec)))
     return out
